@@ -187,7 +187,8 @@ def write_evidence(pid, tier, seed, records, info, wall, n_viol, known, undecide
         "coverage": {
             "obligations": obligations, "discharged": discharged,
             "checker_cmd": " ; ".join(info["checker_cmds"]) or "none",
-            "trusted_base": m.get("trusted_base", []) + meta.COMMON_TRUSTED + sorted(set(info.get("unit_trusted", []))),
+            "trusted_base": m.get("trusted_base", []) + (meta.COMMON_TRUSTED if any(r["backend"].startswith("kani") for r in records) else [])
+                            + (meta.VERUS_TRUSTED if any(r["backend"] == "verus" for r in records) else []) + sorted(set(info.get("unit_trusted", []))),
             "kinds": {k: sum(1 for r in records if r.get("kind", "property") == k) for k in sorted({r.get("kind", "property") for r in records})},
             "memoised_kani_verdicts": sum(1 for r in records if r.get("_r", {}).get("cached")),
             "bounded_standins_not_counted_as_proved": bounded,
